@@ -11,7 +11,9 @@
 #include <etl/_tuple/tuple_size.hpp>
 #include <etl/_type_traits/declval.hpp>
 #include <etl/_type_traits/index_constant.hpp>
+#include <etl/_type_traits/is_assignable.hpp>
 #include <etl/_type_traits/is_convertible.hpp>
+#include <etl/_type_traits/is_copy_assignable.hpp>
 #include <etl/_type_traits/is_copy_constructible.hpp>
 #include <etl/_type_traits/is_default_constructible.hpp>
 #include <etl/_type_traits/is_implicit_default_constructible.hpp>
@@ -112,6 +114,8 @@ struct tuple {
 private:
     template <size_t I, typename T>
     friend struct tuple_element;
+    template <typename... Us>
+    friend struct tuple;
     template <size_t N, typename... Us>
     friend constexpr auto get(tuple<Us...>& t) -> decltype(auto); // NOLINT
     template <size_t N, typename... Us>
@@ -184,7 +188,49 @@ public:
     constexpr tuple(tuple const&)     = default;
     constexpr tuple(tuple&&) noexcept = default;
 
+    /// \brief Assigns each element of other to the corresponding element of *this.
+    /// Reference elements are assigned through.
+    constexpr auto operator=(tuple const& other) -> tuple&
+        requires((is_copy_assignable_v<Ts> and ...))
+    {
+        assign_from(other, etl::index_sequence_for<Ts...>{});
+        return *this;
+    }
+
+    /// \brief Assigns etl::forward<Ti>(get<i>(other)) to each element of *this.
+    constexpr auto operator=(tuple&& other) noexcept((is_nothrow_move_assignable_v<Ts> and ...)) -> tuple&
+        requires((is_move_assignable_v<Ts> and ...))
+    {
+        assign_from(etl::move(other), etl::index_sequence_for<Ts...>{});
+        return *this;
+    }
+
+    /// \brief Assigns each element of other to the corresponding element of *this.
+    template <typename... Us>
+        requires((sizeof...(Us) == sizeof...(Ts)) and (is_assignable_v<Ts&, Us const&> and ...))
+    constexpr auto operator=(tuple<Us...> const& other) -> tuple&
+    {
+        assign_from(other, etl::index_sequence_for<Ts...>{});
+        return *this;
+    }
+
+    /// \brief Assigns etl::forward<Ui>(get<i>(other)) to each element of *this.
+    template <typename... Us>
+        requires((sizeof...(Us) == sizeof...(Ts)) and (is_assignable_v<Ts&, Us> and ...))
+    constexpr auto operator=(tuple<Us...>&& other) -> tuple&
+    {
+        assign_from(etl::move(other), etl::index_sequence_for<Ts...>{});
+        return *this;
+    }
+
     constexpr auto swap(tuple& other) noexcept((is_nothrow_swappable_v<Ts> && ...)) -> void { _impl.swap(other._impl); }
+
+private:
+    template <typename Other, etl::size_t... Is>
+    constexpr auto assign_from(Other&& other, etl::index_sequence<Is...> /*is*/) -> void
+    {
+        ((get_impl(etl::index_v<Is>) = etl::forward<Other>(other).get_impl(etl::index_v<Is>)), ...);
+    }
 };
 
 /// \brief The empty tuple.
